@@ -15,6 +15,11 @@ func init() {
 		c12Quorum(c)
 		gQuorumJoint(c)
 	}})
+	register(&PropertyRule{ID: "C05", Explain: "structural necessary conditions of C05 (promises durable before visible): see DESIGN.md §5 C05", Run: func(c *Check) {
+		gRoute(c)
+		c05Extras(c)
+		gMatchAck(c)
+	}})
 	register(&PropertyRule{ID: "C03", Explain: "structural necessary conditions of C03 (log matching): see DESIGN.md §5 C03", Run: func(c *Check) {
 		gTrunc(c)
 		gStable(c)
